@@ -24,6 +24,7 @@ _py_min = builtins.min
 _py_max = builtins.max
 _py_sum = builtins.sum
 _py_round = builtins.round
+_py_any = builtins.any
 
 newaxis = None
 pi = math.pi          # replaced by the trig layer when a harness wants a symbolic pi
@@ -873,7 +874,14 @@ class SArr(object):
         if self.a.ndim != 1:
             raise Unsupported("argsort on nd array")
         stable = kind in ("stable", "mergesort")
-        return SArr(_obj_array(_argsort_cells(self.la.tolist(), stable)), rnp.dtype("i8"))
+        cells = self.la.tolist()
+        if not stable and self.dt.kind in "iuf" and not _py_any(is_sym(c) for c in cells) and _py_len(cells):
+            # concrete data: the order of ties under NumPy's default sort is whatever this NumPy does
+            try:
+                return SArr(_obj_array([_py_int(i) for i in rnp.argsort(rnp.array([_py_float(c) if self.dt.kind == "f" else _py_int(c) for c in cells], dtype=self.dt), kind=kind)]), rnp.dtype("i8"))
+            except (TypeError, ValueError):
+                pass
+        return SArr(_obj_array(_argsort_cells(cells, stable)), rnp.dtype("i8"))
 
     def sort(self, axis=-1, kind=None, **kw):
         if self.a.ndim != 1:
@@ -1545,6 +1553,19 @@ def cumsum(x, axis=None):
 
 def argsort(x, axis=-1, kind=None, **kw):
     return asarray(x).argsort(kind=kind)
+
+
+def roll(x, shift, axis=None):
+    xa = asarray(x)
+    if xa.ndim != 1 or is_sym(shift):
+        raise Unsupported("roll on nd arrays / symbolic shift")
+    n = xa.size
+    if n == 0:
+        return xa.copy()
+    k = _py_int(shift) % n
+    c = xa.a.tolist()
+    out = c[n - k:] + c[:n - k]
+    return SArr(_obj_array(out), xa.dt)
 
 
 def diff(x, n=1, axis=-1):
